@@ -244,6 +244,13 @@ class AccessMixin(object):
     raise Unsupported('constant %r' % (c,))
 
   def class_attr(self, st, cx, cname, attr, node):
+    for c in self.mro(cname):
+      ci = self.reg.classes.get(c)
+      if ci is not None and attr in ci.static_fields:
+        # a mutable class attribute (process-wide singleton): one object for the whole run
+        g = V(ci.static_fields[attr], z3.Int('G_%s_%s' % (c, attr)))
+        st.assume_wf(z3.And(g.t > 0, g.t <= st.alloc))
+        return g
     member, mod, mowner = self.find_member(cname, attr)
     if member is not None:
       if isinstance(member, ast.FunctionDef):
@@ -326,8 +333,41 @@ class AccessMixin(object):
         else:
           yield o[0], self.dq_get(o[0], base, lo + j)
       return
+    if k == 'ddict':
+      # collections.defaultdict: a missing key reads as the default value, which is inserted
+      key = self.key_term(st, idx, base.ty.args[0])
+      vty = base.ty.args[1]
+      has = z3.Select(self.dict_has_arr(st, base), key)
+      if self.spec_depth:
+        if vty.k in ('int', 'real'):
+          cur = self.dict_get(st, base, key)
+          zero = z3.IntVal(0) if vty.k == 'int' else z3.RealVal(0)
+          yield st, V(vty, z3.If(has, cur.t, zero))
+        else:
+          yield st, self.dict_get(st, base, key)
+        return
+      s_has = st.fork()
+      s_has.assume(has)
+      if self.feasible(s_has):
+        yield s_has, self.dict_get(s_has, base, key)
+      s_new = st.fork()
+      s_new.assume(z3.Not(has))
+      if self.feasible(s_new):
+        if vty.k == 'int':
+          dv = mk_int(0)
+        elif vty.k == 'real':
+          dv = V(vty, z3.RealVal(0))
+        elif vty.k in ('ddict', 'dict'):
+          r = self.new_ref(s_new)
+          dv = V(vty.with_opt(False), r)
+          self.dict_init_empty(s_new, dv)
+        else:
+          raise Unsupported('defaultdict of %r' % vty)
+        self.dict_set(s_new, base, key, dv)
+        yield s_new, dv
+      return
     if k == 'dict':
-      key = coerce(idx, base.ty.args[0])
+      key = self.key_term(st, idx, base.ty.args[0])
       if self.spec_depth:
         yield st, self.dict_get(st, base, key)
         return
@@ -701,7 +741,7 @@ class AccessMixin(object):
     elif k == 'set':
       for o in self.set_method(st, cx, recv, name, args, node):
         yield o
-    elif k == 'dict':
+    elif k in ('dict', 'ddict'):
       for o in self.dict_method(st, cx, recv, name, args, node):
         yield o
     elif k == 'str':
@@ -818,7 +858,7 @@ class AccessMixin(object):
     kty, vty = d.ty.args
     has = self.dict_has_arr(st, d)
     if name in ('get', 'pop'):
-      key = coerce(args[0], kty)
+      key = self.key_term(st, args[0], kty)
       present = z3.Select(has, key)
       have_default = len(args) > 1 or name == 'get'
       default = args[1] if len(args) > 1 else NONE_V
